@@ -93,3 +93,72 @@ Example C16_ex_any_in_union_needs_wf :
   /\ matches (compile (TUnion [TBase BNone; TAny])) VStr = false
   /\ check (TUnion [TAny; TBase BInt]) VStr = true /\ check (TUnion [TBase BNone; TAny]) VStr = true.
 Proof. repeat split; reflexivity. Qed.
+
+(* ---- the second clause of the property, exactly where it holds ------------------------------------ *)
+(* on a type expression none of whose unions brings together two list types or two dict types
+   (`merge_free`, computed in the model and reported by the tie for every generated type) the real
+   normalisation IS the merge-less one ... *)
+Theorem C16_merge_free_normalize : forall t, merge_free t = true -> normalize t = normalize_nomerge t.
+Proof. exact merge_free_normalize. Qed.
+(* ... so it preserves the meaning of the expression as written, and every check path answers denote_raw *)
+Theorem C16_normalize_denote_merge_free : forall t, merge_free t = true ->
+  forall v, denote_raw t v = denote (normalize t) v.
+Proof. exact normalize_denote_merge_free. Qed.
+Theorem C16_check_exact_merge_free : forall t, merge_free t = true -> forall v, check t v = denote_raw t v.
+Proof. exact check_exact_merge_free. Qed.
+
+(* ---- the check paths ----------------------------------------------------------------------------- *)
+(* isinstance and the host API compile the type from a VALUE at call time (ordinary evaluation: at/at2/bit_or,
+   Ty::union2); parameter, return and assignment annotations are compiled at def/compile time by the restricted
+   evaluator (type_any_of = Ty::unions, compiler_ty, from_ty again, no check for a wildcard, to_frozen).
+   All of them hand `matches` a matcher that answers like the factory's matcher for the normalised type. *)
+Theorem C16_isinstance_matcher : forall t, compile_at_isinstance t = compile (normalize t).
+Proof. exact isinstance_matcher. Qed.
+Theorem C16_compiler_ty_normalize : forall t, compiler_ty t = normalize t.
+Proof. exact compiler_ty_normalize. Qed.
+Theorem C16_union2_is_unions : forall a b, wf_ty a = true -> wf_ty b = true -> union2 a b = unions_top [a; b].
+Proof. exact union2_unions_top. Qed.
+Theorem C16_paths_agree : forall t v,
+  check_isinstance t v = check_param t v /\ check_param t v = check_return t v /\
+  check_return t v = check_assign t v /\ check_assign t v = check_host t v /\ check_host t v = check t v.
+Proof. exact paths_agree. Qed.
+Theorem C16_paths_agree_frozen_host_and_alias : forall t v,
+  check_host_frozen t v = check t v /\ check_param_alias t v = check t v.
+Proof. intros t v. split; [apply check_host_frozen_eq | apply check_param_alias_eq]. Qed.
+
+(* freezing a compiled type / a value changes representation tags only, and no check reads them *)
+Theorem C16_freeze_ty_tags_only : forall c,
+  tc_ty (freeze_ty c) = tc_ty c /\ tc_m (freeze_ty c) = tc_m c /\ tc_frozen (freeze_ty c) = true.
+Proof. exact freeze_ty_tags_only. Qed.
+Theorem C16_freeze_val_tags_only : forall g, view (freeze_val g) = view g.
+Proof. exact view_freeze. Qed.
+Theorem C16_freeze_invariant : forall c g, check_tc (freeze_ty c) (freeze_val g) = check_tc c g.
+Proof. exact freeze_invariant. Qed.
+Theorem C16_freeze_invariant_sites : forall t g,
+  check_tc (freeze_ty (tc_new (eval_rt t))) (freeze_val g) = check t (view g) /\
+  check_tc (freeze_ty (tc_new (eval_ct t))) (freeze_val g) = check t (view g) /\
+  check_tc (tc_new (eval_rt t)) g = check t (view g).
+Proof. exact freeze_invariant_sites. Qed.
+
+(* the example type is merge-free although it is changed by normalisation; the refutation witness is not *)
+Example C16_ex_merge_free : merge_free ex_ty = true /\ normalize ex_ty <> ex_ty
+  /\ merge_free (TUnion [TList (TBase BInt); TList (TBase BStr)]) = false
+  /\ merge_free (TUnion [TList (TBase BInt); TList (TBase BInt); TBase BNone]) = true.
+Proof. repeat split; try reflexivity. vm_compute; discriminate. Qed.
+(* the paths really differ in what they build: an annotation that is a run-time wildcard emits no check
+   (MAny) where isinstance runs IsList-of-wildcard collapsed matchers; the frozen tag differs; the answers do not *)
+Example C16_ex_paths_differ_in_representation :
+  compile_at_isinstance (TUnion [TAny; TBase BInt]) = MAny
+  /\ expr_for_type_ty (compiler_ty (TUnion [TAny; TBase BInt])) = None
+  /\ tc_frozen (tc_new (eval_rt (TList (TBase BInt)))) = false
+  /\ (exists c, expr_for_type_ty (compiler_ty (TList (TBase BInt))) = Some c /\ tc_frozen c = true
+                /\ tc_m c = compile_at_isinstance (TList (TBase BInt)))
+  /\ eval_rt (TTuple [TBase BInt; TBase BStr]) <> eval_ct (TTuple [TBase BInt; TBase BStr])
+  /\ freeze_val (HList false [HLeaf false VStr]) <> HList false [HLeaf false VStr]
+  /\ check_tc (freeze_ty (tc_new (eval_rt (TList (TBase BStr))))) (freeze_val (HList false [HLeaf false VStr])) = true.
+Proof.
+  repeat split; try reflexivity.
+  - eexists. repeat split; reflexivity.
+  - vm_compute; discriminate.
+  - discriminate.
+Qed.
